@@ -268,11 +268,22 @@ pub fn check_range(tables: &Tables, init: &Model, recs: &[OpRec], r: &OpRec) -> 
         let init_state = init.map.get(key).filter(|g| !init.expired(g));
         states.push((init.map.get(key).map_or(0, |g| g.ts), init_state.map(|g| g.value.clone())));
         let mut wildcard = recs.iter().any(|w| matches!(w.op, Op::Sweep) && accepted_modification(w));
+        // a generation written with a TTL whose expiry instant already lies in the past (the
+        // virtual clock stands still during a schedule) is invisible to a scan, like an absent key
+        let visible = |w: &OpRec, ttl: u64, v: Vec<u8>| -> Option<Vec<u8>> {
+            let dead = init.cfg.ttl && ttl > 0 && init.now > eff_ts(w).saturating_add(ttl.saturating_mul(crate::sut::SEC));
+            if dead {
+                None
+            } else {
+                Some(v)
+            }
+        };
         for w in mods.iter().filter(|w| w.invoke < r.response) {
             match (&w.op, &w.out) {
-                (Op::Insert { v, .. }, _) | (Op::Ifa { v, .. }, _) => states.push((eff_ts(w), Some(tables.values[*v as usize].clone()))),
-                (Op::Cas { new, .. }, _) => states.push((eff_ts(w), Some(tables.values[*new as usize].clone()))),
-                (Op::Incr { .. }, Out::Int(n)) => states.push((eff_ts(w), Some(n.to_le_bytes().to_vec()))),
+                (Op::Insert { v, ttl, .. }, _) => states.push((eff_ts(w), visible(w, *ttl, tables.values[*v as usize].clone()))),
+                (Op::Ifa { v, .. }, _) => states.push((eff_ts(w), Some(tables.values[*v as usize].clone()))),
+                (Op::Cas { new, ttl, .. }, _) => states.push((eff_ts(w), visible(w, *ttl, tables.values[*new as usize].clone()))),
+                (Op::Incr { ttl, .. }, Out::Int(n)) => states.push((eff_ts(w), visible(w, *ttl, n.to_le_bytes().to_vec()))),
                 (Op::Delete { .. }, _) => states.push((eff_ts(w), None)),
                 _ => wildcard = true, // TTL-only rewrites, patches: not modelled here
             }
